@@ -20,7 +20,10 @@
 (* Observation of a date reply: obs.rfc = <<y, m, d, h, mi, s, ns, off>>,  *)
 (* the numeric fields of the reply's RFC 3339 string (digit extraction is  *)
 (* the driver's; the calendar arithmetic is DateTime.tla's), obs.fields =  *)
-(* the reply's own numeric fields.                                         *)
+(* the reply's own numeric fields; obs.exact (plain expressions only) = the *)
+(* date value behind the reply: [secs since the Unix epoch (Z), ns, exact   *)
+(* UTC offset, variant]; ev.zl = the zone-naming literals of the query with *)
+(* the offset the code reported for each when evaluated alone.              *)
 (***************************************************************************)
 EXTENDS Eval, DateTime, TLC, Json, IOUtils
 
@@ -64,25 +67,48 @@ DEvBin(op, a, b) == IF a.v.t = "err" THEN a
                     ELSE Soften(DateBin(op, a.v, b.v), a.soft \/ b.soft)
 
 \* expressions with date literals: + and - are the operators the property speaks about, everything else is Eval's
-RECURSIVE DEv(_)
-DEv(e) ==
-  IF e.k = "date" THEN R2(LitValue(e.toks), FALSE)
-  ELSE IF e.k = "bin" /\ e.op \in {"add", "sub"} THEN DEvBin(e.op, DEv(e.l), DEv(e.r))
+\* zl: the literals of this query that name a zone, each with the UTC offset the code itself reported for it when it
+\* was evaluated alone (the tz database is not specified): <<[lit |-> text between the # marks, off |-> seconds], ...>>
+DateToksOf(text) == Lex(<<35>> \o text \o <<35>>)[1].toks
+ZoneOffsetFor(toks, zl) ==
+  LET hits == {i \in DOMAIN zl : DateToksOf(zl[i].lit) = toks}
+  IN IF hits = {} THEN <<>> ELSE <<zl[CHOOSE i \in hits : TRUE].off>>
+LitValueZ(s, toks, zl) == ValueOfSummary(s, IF LitIsZoned(s) THEN ZoneOffsetFor(toks, zl) ELSE <<>>)
+
+RECURSIVE DEv(_, _)
+DEv(e, zl) ==
+  IF e.k = "date" THEN R2(LitValueZ(LitSummary(e.toks), e.toks, zl), FALSE)
+  ELSE IF e.k = "bin" /\ e.op \in {"add", "sub"} THEN DEvBin(e.op, DEv(e.l, zl), DEv(e.r, zl))
   ELSE R2(Ev(e, JudgeEnv), FALSE)
 
 -----------------------------------------------------------------------------
 (* observations *)
+\* the reply: obs.rfc = the numeric fields of its RFC 3339 string and the offset shown there, obs.fields = its own fields
 ObsWellFormed(o) == /\ o.t = "date" /\ Len(o.rfc) = 8 /\ FieldsValid(SubSeq(o.rfc, 1, 7)) /\ OffsetValid(o.rfc[8])
                     /\ Len(o.fields) = 7 /\ \A k \in 1..7 : o.fields[k] = o.rfc[k]
 ObsInstant(o) == FieldsInstant(SubSeq(o.rfc, 1, 7), o.rfc[8])
 ObsLocal(o) == FieldsLocal(SubSeq(o.rfc, 1, 7))
 Near(x, inst, win) == ZEq(x, inst) \/ (win = 1 /\ ZEq(x, ZAdd(inst, ZOne)))
-ObsIsInstant(o, inst, win) == ObsWellFormed(o) /\ Near(ObsInstant(o), inst, win)
 \* A reply in a named zone shows its UTC offset rounded to minutes (RFC 3339 has no seconds there), but local mean
-\* times have seconds (US/Pacific before 1883 is -7:52:58): the reply then fixes its instant only to +-30 s.
-\* Exact agreement, or a difference of whole seconds of at most 30 s.
+\* times have seconds (US/Pacific before 1883 is -7:52:58): such a reply fixes its instant only to +-30 s.
 Thirty == ZMul(ZFromInt(30), ZBillion)
 OffsetSlack(dz) == NIsZero(NMod(dz.mag, NBillion)) /\ NLe(dz.mag, Thirty.mag)
+\* the value behind the reply, when the query is a plain expression (obs.exact): seconds since 1970-01-01T00:00:00 UTC,
+\* nanoseconds, the exact UTC offset, the variant.  The Unix epoch as a day number is this specification's own.
+UnixEpochSecs == ZMul(ZFromInt(DaysFromCivil(1970, 1, 1)), ZFromInt(86400))
+HasExact(o) == "exact" \in DOMAIN o
+ExactInstant(x) == ZAdd(ZMul(ZAdd(x.secs, UnixEpochSecs), ZBillion), ZFromInt(x.ns))
+\* the reply and the value agree with each other
+ReplyMatchesValue(o) ==
+  /\ o.exact.ns >= 0 /\ o.exact.ns < Billion /\ OffsetValid(o.exact.off)
+  /\ IF o.exact.off % 60 = 0 THEN ZEq(ObsInstant(o), ExactInstant(o.exact)) /\ o.rfc[8] = o.exact.off
+     ELSE OffsetSlack(ZSub(ObsInstant(o), ExactInstant(o.exact)))
+  /\ ZEq(ObsLocal(o), ZAdd(ExactInstant(o.exact), OffsetNanos(o.exact.off)))
+ObsIsInstant(o, inst, win) ==
+  /\ ObsWellFormed(o)
+  /\ IF HasExact(o) THEN ReplyMatchesValue(o) /\ Near(ExactInstant(o.exact), inst, win)
+     ELSE Near(ObsInstant(o), inst, win)
+\* replies of conversions to a named zone (no value to look at): exact agreement, or whole seconds within the slack
 ObsIsInstantInZone(o, inst) == ObsWellFormed(o) /\ (ZEq(ObsInstant(o), inst) \/ OffsetSlack(ZSub(ObsInstant(o), inst)))
 
 \* a whole-query literal is judged relationally: every reading the documented patterns allow is admissible
@@ -93,7 +119,8 @@ LitVerdict(toks, o, i) ==
   ELSE LET errok == s.valid = {} \/ s.ninvalid > 0 \/ \E r \in s.valid : r.soft
            dateok == \E r \in s.valid :
                        IF r.c = "fixed" THEN ObsIsInstant(o, r.inst, r.win)
-                       ELSE ObsWellFormed(o) /\ Near(ObsLocal(o), r.inst, r.win)     \* named zone: same local time
+                       ELSE /\ ObsWellFormed(o) /\ Near(ObsLocal(o), r.inst, r.win)  \* named zone: same local time
+                            /\ (HasExact(o) => ReplyMatchesValue(o))
        IN IF (o.t = "err" /\ errok) \/ dateok THEN TRUE
           ELSE PrintT(<<"REJECT", i, ToJson([valid |-> s.valid, ninvalid |-> s.ninvalid])>>)
 
@@ -108,8 +135,8 @@ ValueVerdict(r, o, i) ==
   ELSE PrintT(<<"REJECT", i, ToJson(r.v)>>)
 
 \* `date -> +hh:mm` and `date -> "Zone"`: the same instant; offsets of 24 h or more are refused
-ConvVerdict(qa, o, i) ==
-  \E r \in {DEv(qa.e)} :
+ConvVerdict(qa, o, zl, i) ==
+  \E r \in {DEv(qa.e, zl)} :
   IF r.v.t = "err" THEN ValueVerdict(r, o, i)
   ELSE IF r.v.t # "date" THEN PrintT(<<"SILENT", i>>)
   ELSE IF o.t = "crash" THEN PrintT(<<"CRASH", i>>)
@@ -128,9 +155,9 @@ Verdict(ev, i) ==
        THEN PrintT(<<"ASTDIFF", i>>) ELSE TRUE
     /\ IF qa.k = "expr" THEN
           (IF qa.e.k = "date" THEN LitVerdict(qa.e.toks, ev.obs, i)
-           ELSE \E r \in {DEv(qa.e)} : ValueVerdict(r, ev.obs, i))
+           ELSE \E r \in {DEv(qa.e, ev.zl)} : ValueVerdict(r, ev.obs, i))
        ELSE IF qa.k = "convert" /\ qa.base = 0 /\ qa.digits.m = "default" /\ qa.conv.c \in {"offset", "tz"}
-            THEN ConvVerdict(qa, ev.obs, i)
+            THEN ConvVerdict(qa, ev.obs, ev.zl, i)
        ELSE PrintT(<<"SILENT", i>>)
 
 Init == l = 1
